@@ -1,5 +1,6 @@
 import GodiProofs.Container.Close
 import GodiProofs.Container.Order
+import GodiProofs.Container.ArgsBelow
 import GodiProofs.Container.HypSound
 /-!
 # C11 — Disposal order
@@ -89,6 +90,74 @@ theorem own_instances_closed_in_reverse_creation_order (beh : Beh) (descs : List
   have sd2 := ((dispShrink_close beh corder f).2 (takeChildren (markDisposed st s) s)
     (corder ((st.scope s).children.getD []))).sd sd1
   exact ⟨_, _, _, (sd2 s).1, hlog⟩
+
+/-- ARGUMENTS ARE OLDER: in the log of every history after a successful Build, in every constructor event every
+instance among the arguments — plain, keyed, a parameter-object field or a member of a group argument — has a smaller
+id than every product of that invocation (`Container/ArgsBelow.lean`, invariant `AB`) -/
+theorem arguments_are_older_than_products (beh : Beh) (descs : List Desc) (order : List Nat) (ops : List Op)
+    (hyp : failedHyps descs = []) (hok : (buildRuntime beh descs order).2 = .ok ())
+    (did c inv s : Nat) (args : List Val) (outs : List Inst)
+    (he : Event.ctor did c inv s args outs ∈ (run beh (buildRuntime beh descs order).1 ops).log) :
+    ∀ a ∈ outs, ∀ v ∈ args, ∀ b ∈ idsOf v, b < a := by
+  obtain ⟨wf, rw', is, idist, _⟩ := hyps_of_check hyp
+  obtain ⟨_, hsucc, _⟩ := build_ledger beh descs order wf rw' is idist
+  obtain ⟨_, _, hdescs, hinit, _⟩ := hsucc hok
+  have hb : buildRuntime beh descs order = ((buildRuntime beh descs order).1, .ok ()) := by
+    cases h : buildRuntime beh descs order with
+    | mk a b => rw [h] at hok; simp only at hok; subst hok; rfl
+  obtain ⟨h0, hff⟩ := ab_buildRuntime beh descs order _ hb
+  have := (ab_run beh descs ops _ hdescs (by rw [hdescs]; exact wf) hinit hff h0).evs _ he
+  exact this
+
+/-- DEPENDENTS BEFORE DEPENDENCIES: the list `L.reverse` in which `Close` closes a scope's own instances
+(`own_instances_closed_in_reverse_creation_order`) is strictly decreasing in id; a consumer has a larger id than
+everything it received (`arguments_are_older_than_products`). So whenever a consumer `a` and an instance `b` it
+received are owned by the same scope, `a` is closed before `b`: no instance is closed while an instance that
+received it is still open. -/
+theorem newest_first {L : List Inst} (h : L.Pairwise (· < ·)) : L.reverse.Pairwise (· > ·) := by
+  rw [List.pairwise_reverse]
+  exact h.imp (fun hab => hab)
+
+theorem idxOf_cons_ne' (x a : Inst) (rest : List Inst) (h : x ≠ a) : (x :: rest).idxOf a = rest.idxOf a + 1 := by
+  rw [List.idxOf_cons]
+  have : (x == a) = false := by simp [h]
+  simp [this]
+
+theorem consumer_closed_before_what_it_received {L : List Inst} (h : L.Pairwise (· < ·)) (a b : Inst)
+    (ha : a ∈ L) (hb : b ∈ L) (hlt : b < a) : L.reverse.idxOf a < L.reverse.idxOf b := by
+  have hp := newest_first h
+  have ha' : a ∈ L.reverse := List.mem_reverse.2 ha
+  have hb' : b ∈ L.reverse := List.mem_reverse.2 hb
+  generalize L.reverse = R at hp ha' hb'
+  clear h ha hb
+  induction R with
+  | nil => cases ha'
+  | cons x rest ih =>
+    simp only [List.pairwise_cons] at hp
+    by_cases hxa : x = a
+    · subst hxa
+      have hbx : b ≠ x := fun e => by subst e; exact Nat.lt_irrefl _ hlt
+      have hbr : b ∈ rest := by
+        rcases List.mem_cons.1 hb' with h | h
+        · exact absurd h hbx
+        · exact h
+      rw [List.idxOf_cons_self]
+      rw [idxOf_cons_ne' _ _ _ (fun e => hbx e.symm)]
+      exact Nat.succ_pos _
+    · have har : a ∈ rest := by
+        rcases List.mem_cons.1 ha' with h | h
+        · exact absurd h.symm hxa
+        · exact h
+      have hxb : x ≠ b := by
+        intro e; subst e
+        have := hp.1 a har
+        exact Nat.lt_irrefl _ (Nat.lt_trans hlt this)
+      have hbr : b ∈ rest := by
+        rcases List.mem_cons.1 hb' with h | h
+        · exact absurd h.symm hxb
+        · exact h
+      rw [idxOf_cons_ne' _ _ _ hxa, idxOf_cons_ne' _ _ _ hxb]
+      exact Nat.succ_lt_succ (ih hp.2 har hbr)
 
 /-- scoped 4 (disposable) consumes scoped 3 (disposable): created 3 then 4, closed 4 then 3 -/
 def exOrder : List Desc :=
